@@ -9,6 +9,7 @@ Record bcase := {
   b_t0 : Qc; b_dt : Qc; b_imex : bool; b_jacobi : bool;
   b_levels : list mlevel;                       (* level 0 first; ml_pre / ml_post unused, ml_pre = nsweeps of the level *)
   b_xfers : list mxfer;                         (* transfer l <-> l+1 *)
+  b_ends : list (bool * bool * list Qc);        (* per level: right_is_node, do_coll_update, weights (index 0 unused) *)
   b_u : list (list (list Qc));                  (* [step][node 0..M][comp] fine values at pre_iteration (after IT_CHECK's communication) *)
   b_f : list (list (list (list Qc)));           (* [step][node][part][comp] *)
 }.
@@ -27,12 +28,14 @@ Section BRun.
   Let xf := fun l => xfer_of (nth l (b_xfers C) dummy_xfer).
   Let tstart := fun p : nat => b_t0 C + Q2Qc (inject_Z (Z.of_nat p)) * b_dt C.
   Let nsw := fun l => ml_pre (nth l (b_levels C) dummy_level).
+  Let lend := fun l => let '(r, d, w) := nth l (b_ends C) (true, false, []) in {| erin := r; edcu := d; ew := nthq w |}.
   Let init : @bstate Qc nat :=
     fun p l => match l with
                | O => {| su := nodevec_of (nth p (b_u C) []); sf := fun m q => nthq (nth q (nth m (nth p (b_f C) []) []) []);
-                         stau := fun _ => None; suold := fun _ _ => 0; sfold := fun _ _ _ => 0; svalid := Nat.ltb p P |}
+                         stau := fun _ => None; suold := fun _ _ => 0; sfold := fun _ _ _ => 0;
+                         suend := fun _ => 0; ssent := false; svalid := Nat.ltb p P |}
                | S _ => {| su := fun _ _ => 0; sf := fun _ _ _ => 0; stau := fun _ => None; suold := fun _ _ => 0;
-                           sfold := fun _ _ _ => 0; svalid := false |}
+                           sfold := fun _ _ _ => 0; suend := fun _ => 0; ssent := false; svalid := false |}
                end.
 
   (* the stages of one iteration after IT_CHECK, followed by the communication of the next IT_CHECK (where post_iteration is
@@ -40,7 +43,7 @@ Section BRun.
   Definition b_ops : list (@op) := iteration_body P L nsw (b_jacobi C) ++ it_check_ops P.
 
   Definition b_run : list Qc :=
-    let B := run_ops 0 Qcplus Qcmult Qcminus Qc_eqb (b_imex C) lev xf tstart b_ops init in
+    let B := run_ops 0 Qcplus Qcmult Qcminus Qc_eqb (b_imex C) lev xf tstart lend b_ops init in
     let L0 := nth 0 (b_levels C) dummy_level in
     let d := p_dim (ml_prob L0) in
     let npp := if b_imex C then 2%nat else 1%nat in
